@@ -295,6 +295,8 @@ class Exec:
         finally:
             self.depth -= 1
             self.frames.pop()
+            if self.depth == 0:
+                self.exit_env = env         # locals of the function under proof at its exit (Contract.expose_locals)
 
     def bind_args(self, finfo, args, kwargs, bound=None):
         (pos, vararg, kwonly, kwarg) = finfo.params()
